@@ -57,4 +57,36 @@ theorem statesyncLatestSavedBlock_eq (p k0 cfgMtb : Int) (hf : Bool) (mk tp si :
        first
          | (refine ⟨cfgMtb, .inl rfl, ?_⟩; cases e2 <;> simp_all <;> omega)
          | (refine ⟨pol, .inr rfl, ?_⟩; cases e2 <;> simp_all <;> omega))
+/-- (*Module).Init, translated from module.go on this run, on a fresh node (stage `none` = 2, chain at height 0, no
+sync point stored, CleanStorage succeeds): the chain is too low (`inactive` = 1, no point chosen) exactly when the
+model's `syncPointOf` is `none`, otherwise the point stored is `syncPointOf top interval` and the stage is
+`initialized` (= 4). With a stored point that is still valid (a restart) that point is kept. -/
+theorem statesyncInit_point (top interval sp trusted pOld : Nat) (defErr : Bool) (hi : 0 < interval)
+    (ht : top < 4294967296) (h2 : 2 * interval < 4294967296) :
+    (GoFuncs.statesyncModuleInit top 2 sp interval 0 trusted pOld true defErr false).2.1 =
+      (match syncPointOf top interval with | none => 1 | some _ => 4) ∧
+    (GoFuncs.statesyncModuleInit top 2 sp interval 0 trusted pOld true defErr false).2.2.1 =
+      (match syncPointOf top interval with | none => (sp : Int) | some p => (p : Int)) := by
+  have hdiv : ((top : Int) / (interval : Int)) * (interval : Int) = ((top / interval * interval : Nat) : Int) := by
+    push_cast; rfl
+  have hle : top / interval * interval ≤ top := Nat.div_mul_le_self top interval
+  generalize hP : ((top : Int) / (interval : Int)) * (interval : Int) = P at hdiv
+  generalize hQ : top / interval * interval = Q at hdiv hle
+  have hm1 : P % 4294967296 = P := Int.emod_eq_of_lt (by omega) (by omega)
+  have hm2 : (2 * (interval : Int)) % 4294967296 = 2 * (interval : Int) := Int.emod_eq_of_lt (by omega) (by omega)
+  unfold GoFuncs.statesyncModuleInit syncPointOf
+  simp only [hP, hQ, hm1, hm2]
+  by_cases hlow : Q < 2 * interval
+  · have h1 : P < 2 * (interval : Int) := by omega
+    simp only [hlow, h1, if_true]
+    exact ⟨rfl, rfl⟩
+  · have hn : ¬ P < 2 * (interval : Int) := by omega
+    have hsub : (P - 2 * (interval : Int)) % 4294967296 = P - 2 * (interval : Int) :=
+      Int.emod_eq_of_lt (by omega) (by omega)
+    have hpos : ¬ ((0 : Int) > P - 2 * (interval : Int)) := by omega
+    simp only [hlow, hn, hsub, hpos, if_false]
+    simp [hdiv]
+
+example : syncPointOf 13 4 = some 12 ∧ syncPointOf 7 4 = none := by decide
+
 end NeoModel.GoFuncsTie
